@@ -53,6 +53,15 @@ CLAIMED["C16"] = dict(
          "comparison; Wilcoxon and bootstrap>0 outside; <=3 other trials, <=4 steps",
     design="§3 C16")
 
+CLAIMED["C13"] = dict(
+    text="Relational bounded symbolic execution: one symbolic history (z3-real values, pairwise distinct; NaN forks) is fed to two instances "
+         "of the real code as (MAXIMIZE, H) and (MINIMIZE, -H) with thresholds mirrored; z3 proves equal decisions on every path pair for "
+         "Percentile/Median/SuccessiveHalving/Hyperband/Patient/Threshold pruners, Study.best_trial, the Pareto front with any subset of "
+         "objectives flipped, TPE _split_trials and the NSGA-II elite population selection (rank + crowding distance).",
+    note="claim is over exact reals (negation/comparison exact on doubles; percentile interpolation rounding is outside and its one known "
+         "tie-rounding witness is listed as a known finding); GP/CMA-ES/Wilcoxon and whole seeded runs outside",
+    design="§3 C13")
+
 NOT_APPLICABLE = {
     "C03": "thread/process pre-emption at source-line granularity inside the storage layer cannot be made a symbolic variable over the "
            "real Python code by a solver-based executor; its atomic-step obligations are discharged under C01/C04/C06/C07",
